@@ -256,4 +256,14 @@ def readerWidthsAgree (name : String) : Bool :=
   | some e => e.2.all fun r => match r.2.2.1 with | some s => s == r.2.1 | none => true
   | none => false
 
+/-- generated kind against the schema's: `.u 0` stands for an unsigned item whose width the probe could not force (the elements of
+    the index lists of a block built through the record interface are small table indices) -/
+def sigCompat : KindSig → KindSig → Bool
+  | .u 0, .u _ => true
+  | .arr a, .arr b => sigCompat a b
+  | a, b => a == b
+
+def rowsCompat (gen model : List (Int × KindSig × Bool)) : Bool :=
+  gen.length == model.length && (gen.zip model).all fun p => p.1.1 == p.2.1 && sigCompat p.1.2.1 p.2.2.1 && p.1.2.2 == p.2.2.2
+
 end CdnsVerif.Model.Structs
